@@ -1,10 +1,11 @@
 PROP = {
     "id": "C34",
     "theorem_modules": ["Verif.Properties.C34"],
-    "min_theorems": 3,
+    "min_theorems": 4,
     "required_theorems": [
         "Verif.Properties.C34.peephole_jumps",
         "Verif.Properties.C34.peephole_jumps_land",
+        "Verif.Properties.C34.simulation_expr_partial",
     ],
     "streams": [
         {"name": "vmeq", "driver": "drv_lang",
